@@ -183,18 +183,34 @@ def sourceChanged (st : State) (path : Path) : Option State :=
   | some st' => updateExternalDependencies st' path
   | none => none
 
-def removeNodes (st : State) : List Nat → State
-  | [] => st
+/-- the loop of the directory branch of `remove_source` (after the fix of F10): each collected
+node is restarted (which unregisters it from `external_dependencies`) and then removed;
+`contains_node` guards against a repeated index. -/
+def removeNodes (st : State) : List Nat → Option State
+  | [] => some st
   | i :: is =>
-    match removeNode st i with
-    | (st', some it) =>
-      -- `is_in_place` is false: outputs live under the output folder
-      removeNodes { st' with removeFiles := st'.removeFiles ++ [it.output] } is
-    | (st', none) => removeNodes st' is
+    match st.item? i with
+    | none => removeNodes st is
+    | some it =>
+      match restartWork st i with
+      | some st1 =>
+        -- `is_in_place` is false: outputs live under the output folder
+        removeNodes { (removeNode st1 i).1 with removeFiles := st1.removeFiles ++ [it.output] } is
+      | none => none
 
-/-- `WorkerTree::remove_source` -/
+/-- `update_external_dependencies` for each of the given keys, in turn -/
+def updateExternalDependenciesAll (st : State) : List Path → Option State
+  | [] => some st
+  | d :: ds =>
+    match updateExternalDependencies st d with
+    | some st' => updateExternalDependenciesAll st' ds
+    | none => none
+
+/-- `WorkerTree::remove_source`. After the fix of F10/F10b the dependants of the removed path
+AND of every recorded dependency below it are restarted (the keys of `external_dependencies`
+that `starts_with(path)`, collected first). -/
 def removeSource (st : State) (path : Path) : Option State :=
-  let r :=
+  let r : Option State :=
     match alookup st.nodeMap path with
     | some i =>
       match st.item? i with
@@ -209,18 +225,21 @@ def removeSource (st : State) (path : Path) : Option State :=
     | none =>
       let removed := (st.nodeMap.filter fun e => startsWith e.1 path).map (·.2)
       let st1 := { st with nodeMap := st.nodeMap.filter fun e => !(startsWith e.1 path) }
-      some (removeNodes st1 removed)
+      removeNodes st1 removed
   match r with
-  | some st' => updateExternalDependencies st' path
+  | some st' =>
+    updateExternalDependenciesAll st' ((st'.extDeps.map (·.1)).filter fun d => startsWith d path)
   | none => none
 
 /-- output path of a source: `output.join(source.strip_prefix(input))` -/
 def outPath (P : Params) (p : Path) : Path := P.output ++ p.drop P.input.length
 
-/-- `WorkerTree::insert_source` -/
+/-- `WorkerTree::insert_source` (a re-inserted source takes its output off the deletion queue) -/
 def insertSource (P : Params) (st : State) (p : Path) : State :=
   let (st', i) := addNode st { source := p, output := outPath P p, status := .notStarted, deps := [] }
-  { st' with nodeMap := (p, i) :: st'.nodeMap }
+  -- fix of F11b: `self.remove_files.retain(|path| path != output)`
+  { st' with nodeMap := (p, i) :: st'.nodeMap,
+             removeFiles := st'.removeFiles.filter fun q => !(q == outPath P p) }
 
 /-- `WorkerTree::add_source_if_missing` -/
 def addSourceIfMissing (P : Params) (st : State) (p : Path) : State :=
@@ -277,13 +296,27 @@ def fsRemove (fs : Fs) (p : Path) : Fs :=
 def cleanFiles (st : State) : State :=
   { st with fs := st.removeFiles.foldl fsRemove st.fs, removeFiles := [] }
 
-/-- the `'work_loop` of `WorkerTree::process`: passes until `done_count == total_not_done`. -/
-def workLoop (P : Params) (total : Nat) : Nat → State → Outcome
-  | 0, _ => .hang
-  | fuel + 1, st =>
+/-- how the `'work_loop` ends -/
+inductive LoopEnd where
+  /-- every pending item finished (`break`) -/
+  | finished (st : State)
+  /-- a pass finished nothing and the graph has no cycle to report: `process` returns an error
+  (fix of F26); the worker keeps its state -/
+  | stalled (st : State)
+  | hang
+
+/-- the `'work_loop` of `WorkerTree::process` (after the fix of F26): the finished items are
+counted across passes (`acc`); the loop ends when `acc` reaches `total_not_done`, and stops
+with an error after a pass in which nothing finished. (The graph has no edges here, so the
+cycle check can never fire.) -/
+def workLoop (P : Params) (total : Nat) : Nat → Nat → State → LoopEnd
+  | 0, _, _ => .hang
+  | fuel + 1, acc, st =>
     let res := passNodes P st.cfg st.nodes 0 st.fs st.extDeps 0
     let st' := { st with nodes := res.1, fs := res.2.1, extDeps := res.2.2.1 }
-    if res.2.2.2 = total then .ok st' else workLoop P total fuel st'
+    if acc + res.2.2.2 = total then .finished st'
+    else if res.2.2.2 = 0 then .stalled st'
+    else workLoop P total fuel (acc + res.2.2.2) st'
 
 /-- `WorkerTree::has_configuration_changed` followed by `reset` -/
 def configStep (P : Params) (st : State) : State :=
@@ -300,23 +333,30 @@ def processTree (P : Params) (fuel : Nat) (st : State) : Outcome :=
   let total := notDoneCount st1.nodes
   if total = 0 then .ok (cleanFiles st1)   -- early return, after `clean_files` (fix of F11)
   else
-    match workLoop P total fuel st1 with
-    | .ok st2 => .ok (cleanFiles st2)
-    | o => o
+    match workLoop P total fuel 0 st1 with
+    | .finished st2 => .ok (cleanFiles st2)
+    | .stalled st2 => .ok st2   -- `Err(..)` is returned before `clean_files`; the watcher logs it
+    | .hang => .hang
 
 /-! ### the counter logic of the work loop when items can be put on hold
 
-`process` computes `total_not_done` once, resets `done_count` to 0 at the top of every pass
-and leaves the loop only when `done_count == total_not_done`. `genLoop total pending ds`
-replays that logic for passes in which `ds = [d₁, d₂, …]` items finish (each `dₖ` capped by
-what is still pending): `true` iff the loop exits within those passes. With the built-in
-rules every pending item finishes in the first pass (`passNodes_doneCount`); a user-defined
-rule overriding `Rule::require_content` can put items on hold (finding F26). -/
-def genLoop (total : Nat) : Nat → List Nat → Bool
-  | _, [] => false
-  | pending, d :: ds =>
+`process` computes `total_not_done` once. Since the fix of F26 the finished items are counted
+across passes and a pass that finishes nothing ends the loop with an error. `genLoop total
+acc pending ds` replays that logic for passes in which `ds = [d₁, d₂, …]` items finish (each
+`dₖ` capped by what is still pending). With the built-in rules every pending item finishes in
+the first pass (`passNodes_doneCount`); a user-defined rule overriding
+`Rule::require_content` can put items on hold. -/
+inductive LoopVerdict where
+  | exits | errors | running
+  deriving DecidableEq, Repr
+
+def genLoop (total : Nat) : Nat → Nat → List Nat → LoopVerdict
+  | _, _, [] => .running
+  | acc, pending, d :: ds =>
     let d' := min d pending
-    if d' = total then true else genLoop total (pending - d') ds
+    if acc + d' = total then .exits
+    else if d' = 0 then .errors
+    else genLoop total (acc + d') (pending - d') ds
 
 /-! ### the watcher level (src/cli/utils/file_watcher.rs: `process_events`, `run_worker_tree`) -/
 
@@ -401,11 +441,6 @@ A monitor that runs next to the model. `last` is a ghost: the configuration of t
 pass that ran (`process` does not store it, only its hash). -/
 
 inductive Region where
-  /-- `remove_source` on a directory: indices of the removed nodes stay in
-  `external_dependencies`; dependants of files below the directory are not restarted -/
-  | F10
-  /-- a removed source was created again before `clean_files` ran: its fresh output is deleted -/
-  | F11b
   /-- a file is created whose absence shaped the result of a finished item (failed `require`):
   nothing links the item to the path it did not find -/
   | F12
@@ -424,13 +459,8 @@ def strictlyUnder (q p : Path) : Bool := q != p && startsWith q p
 def regionOfRemove (P : Params) (st : State) (p : Path) : Option Region :=
   if startsWith p P.output || startsWith P.output p then some .X
   else match alookup st.nodeMap p with
-  | some _ =>
-    if st.fs.any (fun e => strictlyUnder e.1 p) || st.nodeMap.any (fun e => strictlyUnder e.1 p)
-    then some .X else none
-  | none =>
-    if st.extDeps.any (fun e =>
-        st.nodeMap.any (fun m => m.2 == e.2 && startsWith m.1 p) || strictlyUnder e.1 p)
-    then some .F10 else none
+  | some _ => if st.nodeMap.any (fun e => strictlyUnder e.1 p) then some .X else none
+  | none => none
 
 /-- does some finished item see a different result when `fs` becomes `fs'`? -/
 def staleAfter (P : Params) (last : Cfg) (st : State) (fs' : Fs) : Bool :=
@@ -446,11 +476,6 @@ def regionOfWrite (P : Params) (last : Cfg) (st : State) (p : Path) (c : Content
   else if (isAdd || (alookup st.fs p).isNone) && staleAfter P last st (ainsert st.fs p c)
   then some .F12 else none
 
-/-- a queued output path is the output of a current item (F11b) -/
-def outputClash (st : State) : Bool :=
-  st.removeFiles.any fun q => st.nodes.any fun o =>
-    match o with | some it => it.output == q | none => false
-
 /-- a current item's output lies strictly below a queued output path (X) -/
 def outputUnder (st : State) : Bool :=
   st.removeFiles.any fun q => st.nodes.any fun o =>
@@ -465,8 +490,7 @@ def failsOverOutput (P : Params) (st : State) : Bool :=
 
 /-- the checks on the state after the configuration step -/
 def regionAfterConfig (P : Params) (st1 : State) : Option Region :=
-  if outputClash st1 then some .F11b
-  else if outputUnder st1 then some .X
+  if outputUnder st1 then some .X
   else if failsOverOutput P st1 then some .E
   else none
 
